@@ -206,7 +206,7 @@ func normaliseCfg(cfg *v2.MOSNConfig) v2.MOSNConfig {
 type rtResult struct {
 	Dump1, Dump2        []byte
 	Norm0, Norm1, Norm2 string
-	Items0, Items1      []item // named items of load j and of load (dump (load j))
+	Items0, Items1      []item        // named items of load j and of load (dump (load j))
 	Cfg0, Cfg1          v2.MOSNConfig // load j and load (dump (load j)), normalised
 }
 
